@@ -46,7 +46,8 @@ Record enc_obs := mkEO {
 
 Inductive case :=
 | CReal (store : list (bytes * bytes)) (root : bytes) (size : Z) (steps : list (op * obs))
-| CEncUp (chunk refsize : N) (hs : nat) (klen : nat) (dseed : N) (n : nat) (runs : list enc_obs).
+| CEncUp (chunk refsize : N) (hs : nat) (klen : nat) (dseed : N) (n : nat) (runs : list enc_obs)
+| CLiftUp (encrypted : bool) (n tail : Z) (steps : list (op * obs)).   (* see C07/Corr.v, "lift" cases *)
 
 Definition enc_model (chunk refsize : N) (hs klen : nat) (data : bytes) (o : enc_obs) :=
   let keys := fun n => nth n (eo_keys o) [] in
@@ -80,6 +81,7 @@ Definition first_bad (c : case) : option nat :=
       | [] => None
       | i :: _ => Some i
       end
+  | CLiftUp e n tail steps => lift_first_bad e n tail steps
   end.
 Definition check_case (c : case) : bool := match first_bad c with None => true | Some _ => false end.
 Definition explain_case (c : case) :=
@@ -90,4 +92,5 @@ Definition explain_case (c : case) :=
   | CEncUp chunk refsize hs klen dseed n runs =>
       (first_bad c, inr (map (fun o => let '(rets, lg, r) := enc_model chunk refsize hs klen (C02.Corr.gen_data n dseed) o in
                                        (rets, C02.Corr.digest lg, r, eo_res o)) runs))
+  | CLiftUp e n tail steps => (first_bad c, inl (lift_size n tail, lift_replay e n tail steps))
   end.
